@@ -31,11 +31,11 @@ CHECKS = {
 
 CHECKS.update({
     "C01": dict(
-        text="Round trip decided compositionally by solver queries over the real code: block_builder.c->block.c on fully symbolic entries; the real writer's file (every configuration axis: restart interval, block size, foreign prefix, compression id and level through a ghost codec) decoded by an independent decoder to exactly the added list; the real reader returning exactly what an independent encoder laid out (v1/v2, all legal encodings). Value bytes and all key bytes not deciding order are solver variables.",
-        note="Writer and reader halves meet at the format description (independent decoder/encoder in the harness), not in one query; real codecs are C15; thread pool is C13; mtbl_dump's option filter is checked separately when built. Bounds: <= 6 entries, keys <= 3 bytes.",
+        text="Round trip decided compositionally by solver queries over the real code: block_builder.c->block.c on fully symbolic entries; the real writer's file (every configuration axis: restart interval, block size, foreign prefix, compression id and level through a ghost codec) decoded by an independent decoder to exactly the added list; the real reader returning exactly what an independent encoder laid out (v1/v2, all legal encodings). Value bytes and all key bytes not deciding order are solver variables. Entry lengths are enumerated shapes (0..3 bytes, plus 127..131/200/255/256/383-byte keys, values and shared prefixes at block level, 127..129 on the writer side, 130/131-byte keys in reader-side files); in addition block.c's decode_entry() is decided for every triple of 32-bit lengths against a reference LEB128 header.",
+        note="Writer and reader halves meet at the format description (independent decoder/encoder in the harness), not in one query; real codecs are C15; thread pool is C13; mtbl_dump's option filter is checked separately when built. Bounds: <= 6 entries, keys <= 3 bytes apart from the listed long shapes; block_builder_add with solver-chosen lengths did not finish (memcpy of symbolic size).",
         ref="DESIGN.md 4 C01"),
     "C02": dict(
-        text="Solver verdict for reader_get / get_prefix / get_range: for tables with symbolic keys, values and separators and for concrete tables with awkward keys (empty key, proper prefixes, 0xff, restart runs), every query string of 0..2 bytes yields exactly the oracle's list (then sticky failure); queries beyond the last index key checked for concrete queries.",
+        text="Solver verdict for reader_get / get_prefix / get_range: for tables with symbolic keys, values and separators and for concrete tables with awkward keys (empty key, proper prefixes, 0xff, restart runs), every query string of 0..2 bytes yields exactly the oracle's list (then sticky failure); queries beyond the last index key checked for concrete queries; one table with 130/131-byte keys and a 128-byte value under concrete queries.",
         note="Tables <= 3 blocks / 5 entries, keys and queries <= 2 bytes; reader struct built white-box in the state mtbl_reader_init_fd leaves (C19/C11 cover init); the constructor's give-up path is asserted unreachable for in-range queries and cut.",
         ref="DESIGN.md 4 C02"),
     "C03": dict(
